@@ -431,3 +431,207 @@ theorem state_inventory :
   set_option maxRecDepth 100000 in decide
 
 end Goflow.C12Pool
+
+namespace Goflow.C12Pool
+open Goflow Goflow.Producer Goflow.Pipe Goflow.Pool
+
+/-! ### skipDelimiter along whole histories -/
+
+theorem allPlain_append {a b : List Pooled} (ha : AllPlain a) (hb : AllPlain b) : AllPlain (a ++ b) := by
+  intro m hm
+  rcases List.mem_append.mp hm with h | h
+  · exact ha m h
+  · exact hb m h
+
+theorem allPlain_map {ms : List Pooled} (f : Pooled → Pooled) (hf : ∀ m, (f m).skipDelimiter = m.skipDelimiter)
+    (h : AllPlain ms) : AllPlain (ms.map f) := by
+  intro m hm
+  obtain ⟨a, ha, rfl⟩ := List.mem_map.mp hm
+  rw [hf]; exact h a ha
+
+theorem legacyRecordsP_plain (r : Bool) (bt up : Nat) (rs : List V5.Record) (s : PS) (h : AllPlain s.pool) :
+    AllPlain (legacyRecordsP r bt up rs s).1 ∧ AllPlain (legacyRecordsP r bt up rs s).2.pool := by
+  induction rs generalizing s with
+  | nil => exact ⟨(by intro m hm; cases hm), h⟩
+  | cons x rs ih =>
+    obtain ⟨h1, h2⟩ := take_plain r s h
+    obtain ⟨i1, i2⟩ := ih (take r s).2 h2
+    refine ⟨?_, i2⟩
+    intro m hm
+    simp only [legacyRecordsP, List.mem_cons] at hm
+    rcases hm with rfl | hm
+    · exact h1
+    · exact i1 m hm
+
+theorem netflowRecordsP_plain (r : Bool) (cfg : Option Config) (v bt up : Nat) (rs : List Netflow.DataRecord) (s : PS)
+    (h : AllPlain s.pool) :
+    (∀ ms, (netflowRecordsP r cfg v bt up rs s).1 = .ok ms → AllPlain ms) ∧ AllPlain (netflowRecordsP r cfg v bt up rs s).2.pool := by
+  induction rs generalizing s with
+  | nil => exact ⟨(by intro ms hms; simp only [netflowRecordsP] at hms; cases hms; intro m hm; cases hm), h⟩
+  | cons x rs ih =>
+    obtain ⟨h1, h2⟩ := take_plain r s h
+    obtain ⟨i1, i2⟩ := ih (take r s).2 h2
+    simp only [netflowRecordsP]
+    cases hc : convertNetFlowDataSetOn (take r s).1.flow cfg v bt up x.values with
+    | error e => exact ⟨(by intro ms hms; cases hms), h2⟩
+    | ok f =>
+      simp only []
+      cases hr : (netflowRecordsP r cfg v bt up rs (take r s).2).1 with
+      | error e => exact ⟨(by intro ms hms; cases hms), i2⟩
+      | ok ms' =>
+        refine ⟨?_, i2⟩
+        intro ms hms
+        cases hms
+        intro m hm
+        rcases List.mem_cons.mp hm with rfl | hm
+        · exact h1
+        · exact i1 ms' hr m hm
+
+theorem netflowSetsP_plain (r : Bool) (cfg : Option Config) (v bt up : Nat) (sets : List (List Netflow.DataRecord)) (s : PS)
+    (h : AllPlain s.pool) :
+    AllPlain (netflowSetsP r cfg v bt up sets s).1.1 ∧ AllPlain (netflowSetsP r cfg v bt up sets s).2.pool := by
+  induction sets generalizing s with
+  | nil => exact ⟨(by intro m hm; cases hm), h⟩
+  | cons recs sets ih =>
+    obtain ⟨r1, r2⟩ := netflowRecordsP_plain r cfg v bt up recs s h
+    simp only [netflowSetsP]
+    cases hr : (netflowRecordsP r cfg v bt up recs s).1 with
+    | error e => exact ⟨(by intro m hm; cases hm), r2⟩
+    | ok ms =>
+      obtain ⟨i1, i2⟩ := ih (netflowRecordsP r cfg v bt up recs s).2 r2
+      exact ⟨allPlain_append (r1 ms hr) i1, i2⟩
+
+theorem sflowSamplesP_plain (r : Bool) (cfg : Option Config) (ss : List Sflow.Sample) (s : PS) (h : AllPlain s.pool) :
+    (∀ ms, (sflowSamplesP r cfg ss s).1 = .ok ms → AllPlain ms) ∧ AllPlain (sflowSamplesP r cfg ss s).2.pool := by
+  induction ss generalizing s with
+  | nil => exact ⟨(by intro ms hms; simp only [sflowSamplesP] at hms; cases hms; intro m hm; cases hm), h⟩
+  | cons smp ss ih =>
+    unfold sflowSamplesP
+    by_cases hf : isFlowSample smp = true
+    · simp only [hf, if_true]
+      obtain ⟨h1, h2⟩ := take_plain r s h
+      obtain ⟨i1, i2⟩ := ih (take r s).2 h2
+      cases hc : convertSampleOn (take r s).1.flow cfg smp with
+      | none => exact ⟨i1, i2⟩
+      | some res =>
+        cases res with
+        | error e => exact ⟨(by intro ms hms; cases hms), h2⟩
+        | ok f =>
+          simp only []
+          cases hr : (sflowSamplesP r cfg ss (take r s).2).1 with
+          | error e => exact ⟨(by intro ms hms; cases hms), i2⟩
+          | ok ms' =>
+            refine ⟨?_, i2⟩
+            intro ms hms
+            cases hms
+            intro m hm
+            rcases List.mem_cons.mp hm with rfl | hm
+            · exact h1
+            · exact i1 ms' hr m hm
+    · have hf' : isFlowSample smp = false := by simpa using hf
+      simp only [hf', Bool.false_eq_true, if_false]
+      exact ih s h
+
+theorem put_plain (s : PS) (ms : List Pooled) (h : AllPlain s.pool) (hm : AllPlain ms) : AllPlain (put s ms).pool :=
+  allPlain_append h hm
+
+theorem withFormatter_plain (fid : Nat) {ms : List Pooled} (h : AllPlain ms) : AllPlain (withFormatter fid ms) :=
+  allPlain_map _ (fun _ => rfl) h
+
+theorem onFlow_map_plain {ms : List Pooled} (f : FlowMsg → FlowMsg) (h : AllPlain ms) :
+    AllPlain (ms.map fun m => onFlow m f) := allPlain_map _ (fun _ => rfl) h
+
+/-- one DecodeFlow: if the pool holds only messages with `skipDelimiter = false`, so do the messages sent and the
+    pool afterwards (no non-test code writes that member: `Generated.stateStructs` lists it, no creation site or
+    converter touches it) -/
+theorem decodeFlowP_plain (r : Bool) (k : Kind) (fid : Nat) (cfg : Config) (st : State) (s : PS) (src : Src) (recv : Nat)
+    (d : Bytes) (h : AllPlain s.pool) :
+    AllPlain (decodeFlowP r k fid cfg st s src recv d).sent ∧ AllPlain (decodeFlowP r k fid cfg st s src recv d).ps.pool := by
+  have nil : AllPlain ([] : List Pooled) := by intro m hm; cases hm
+  have nf : AllPlain (netflowPipeP r fid cfg st s src recv d).sent ∧ AllPlain (netflowPipeP r fid cfg st s src recv d).ps.pool := by
+    simp only [netflowPipeP]
+    cases readU 2 d with
+    | error e => exact ⟨nil, h⟩
+    | ok vb =>
+      obtain ⟨version, b⟩ := vb
+      simp only []
+      split
+      · cases V5.decodeMessage b with
+        | error e => exact ⟨nil, h⟩
+        | ok p =>
+          simp only []
+          obtain ⟨l1, l2⟩ := legacyRecordsP_plain r (p.header.unixSecs * 1000000000 + p.header.unixNSecs) p.header.sysUptime p.records s h
+          have hs : AllPlain (withFormatter fid ((processLegacyP r p s).1.map fun m => onFlow m (stampRecv recv (unmap src.ip)))) :=
+            withFormatter_plain fid (onFlow_map_plain _ (by simp only [processLegacyP]; exact onFlow_map_plain _ l1))
+          exact ⟨hs, put_plain _ _ (by simp only [processLegacyP]; exact l2) hs⟩
+      · split
+        · generalize (if version = 9 then Netflow.decodeMessageNetFlow (st.templatesOf src) b
+            else Netflow.decodeMessageIPFIX (st.templatesOf src) b) = o
+          split
+          · exact ⟨nil, h⟩
+          · generalize ((st.setTemplates src (st.templatesOf src)).setTemplates src o.store).ratesOf src.ip = rates
+            obtain ⟨n1, n2⟩ := netflowSetsP_plain r (some cfg) o.packet.version o.packet.baseTime o.packet.uptime
+              (dataSetsOf o.packet.flowSets) s h
+            have hmsgs : AllPlain (processNetflowP r (some cfg) o.packet rates s).1.msgs ∧
+                AllPlain (processNetflowP r (some cfg) o.packet rates s).2.pool := by
+              simp only [processNetflowP]
+              split
+              · exact ⟨n1, n2⟩
+              · split
+                · exact ⟨n1, n2⟩
+                · exact ⟨onFlow_map_plain _ n1, n2⟩
+            have hs := withFormatter_plain fid (onFlow_map_plain (stampRecv recv (unmap src.ip)) hmsgs.1)
+            split
+            · exact ⟨nil, put_plain _ _ hmsgs.2 hs⟩
+            · exact ⟨hs, put_plain _ _ hmsgs.2 hs⟩
+        · exact ⟨nil, h⟩
+  have sf : AllPlain (sflowPipeP r fid cfg st s recv d).sent ∧ AllPlain (sflowPipeP r fid cfg st s recv d).ps.pool := by
+    simp only [sflowPipeP]
+    cases Sflow.decodeMessageVersion d with
+    | error e => exact ⟨nil, h⟩
+    | ok p =>
+      simp only []
+      obtain ⟨s1, s2⟩ := sflowSamplesP_plain r (some cfg) p.samples s h
+      have hp : (∀ ms, (processSflowP r (some cfg) p s).1 = .ok ms → AllPlain ms) ∧ AllPlain (processSflowP r (some cfg) p s).2.pool := by
+        simp only [processSflowP]
+        cases hr : (sflowSamplesP r (some cfg) p.samples s).1 with
+        | error e => exact ⟨(by intro ms hms; cases hms), s2⟩
+        | ok ms' =>
+          refine ⟨?_, s2⟩
+          intro ms hms; cases hms
+          exact onFlow_map_plain _ (s1 ms' hr)
+      cases hr : (processSflowP r (some cfg) p s).1 with
+      | error e => exact ⟨nil, hp.2⟩
+      | ok ms =>
+        have hs := withFormatter_plain fid (onFlow_map_plain (stampSflow recv) (hp.1 ms hr))
+        exact ⟨hs, put_plain _ _ hp.2 hs⟩
+  cases k with
+  | netflow => exact nf
+  | sflow => exact sf
+  | auto =>
+    simp only [decodeFlowP, autoPipeP]
+    cases readU 4 d with
+    | error e => exact ⟨nil, h⟩
+    | ok pb =>
+      obtain ⟨proto, _⟩ := pb
+      simp only []
+      split
+      · exact sf
+      · split
+        · exact nf
+        · exact ⟨nil, h⟩
+
+/-- along every history, from a pool of plain messages: every message ever sent has `skipDelimiter = false` -/
+theorem history_plain (r : Bool) (ds : List Dgram) (st : State) (pool : List Pooled) (h : AllPlain pool) :
+    ∀ o ∈ runP r ds st pool, AllPlain o.1 := by
+  induction ds generalizing st pool with
+  | nil => intro o ho; cases ho
+  | cons d ds ih =>
+    intro o ho
+    obtain ⟨h1, h2⟩ := decodeFlowP_plain r d.kind d.fid d.cfg st ⟨pool, d.cs⟩ d.src d.recvNs d.payload h
+    simp only [runP, List.mem_cons] at ho
+    rcases ho with rfl | ho
+    · exact h1
+    · exact ih _ _ h2 o ho
+
+end Goflow.C12Pool
